@@ -373,7 +373,8 @@ package raft
 
 //@ pred (r *raft) wf() := r.log != nil && r.log.valid() && r.log.lastIdx() < MaxUint64 - 1 &&
 //@   r.remotes != nil && r.nonVotings != nil && r.witnesses != nil && r.votes != nil && r.readIndex != nil &&
-//@   r.remotes != r.nonVotings && r.remotes != r.witnesses && r.nonVotings != r.witnesses
+//@   r.remotes != r.nonVotings && r.remotes != r.witnesses && r.nonVotings != r.witnesses &&
+//@   !inregion(r.log.inmem.snapshot, r.msgs)
 
 //@ func (r *raft) numVotingMembers [C18 C03]
 //@ ensures result == len(r.remotes) + len(r.witnesses)
@@ -428,7 +429,7 @@ package raft
 //@    r.remotes[k].match == ite(k == r.replicaID, r.log.lastIdx(), 0)
 //@ loop 1 modifies entries(r.remotes), freshof(remote.match)
 //@ loop 1 invariant (forall k uint64 :: (k in r.remotes) == old(k in r.remotes)) && len(r.remotes) == old(len(r.remotes)) && r.remotes != nil
-//@ loop 1 invariant forall k uint64 :: visited(k) ==> r.remotes[k] != nil && fresh(r.remotes[k]) && r.remotes[k].next == r.log.lastIdx() + 1 &&
+//@ loop 1 invariant forall k uint64 :: visited(k) ==> k in r.remotes && r.remotes[k] != nil && fresh(r.remotes[k]) && r.remotes[k].next == r.log.lastIdx() + 1 &&
 //@    r.remotes[k].match == ite(k == r.replicaID, r.log.lastIdx(), 0)
 
 //@ func (r *raft) resetNonVotings [C03 C18]
